@@ -425,6 +425,9 @@ Proof.
   - specialize (IH Hc Hg Hf). destruct (f x) eqn:E; [rewrite (H x E); simpl; lia|]. destruct (g x); simpl; lia.
 Qed.
 
+Lemma filter_len {A} (f : A -> bool) l : (length (filter f l) <= length l)%nat.
+Proof. induction l as [|x r IH]; simpl; [lia|]. destruct (f x); simpl; lia. Qed.
+
 Lemma fold_left_ext {A B} (f g : A -> B -> A) l : forall st, (forall st i, f st i = g st i) -> fold_left f l st = fold_left g l st.
 Proof. induction l as [|x r IH]; intros st H; simpl; [reflexivity|]. rewrite H. apply IH. exact H. Qed.
 
@@ -494,7 +497,339 @@ Proof.
   assert (E : forall b st i, top_step (S (length order) + k) root cd par b st i = top_step (S (length order)) root cd par b st i).
   { intros b [acc pl] i. unfold top_step.
     rewrite (build_fuel_enough cd (children_of par) order Hch (S (length order)) pl i k); [reflexivity|].
-    unfold unplaced. pose proof (filter_length_le (fun x => negb (mem x (i :: pl))) (fun _ => true) order (fun _ _ => eq_refl)) as Hl.
-    rewrite (filter_all_true (fun _ => true) order (fun _ _ => eq_refl)) in Hl. lia. }
+    unfold unplaced. pose proof (filter_len (fun x => negb (mem x (i :: pl))) order) as Hl. lia. }
   rewrite (fold_left_ext _ _ order _ (E true)). f_equal. apply fold_left_ext. exact (E false).
 Qed.
+
+(* ---- nesting is sound: a component is nested only under the node that contains it ---------------- *)
+Fixpoint pairs (c : comp) : list (string * string) :=
+  map (fun s => (c_ref c, c_ref s)) (c_sub c) ++ flat_map pairs (c_sub c).
+
+Lemma pairs_set_sub c subs : pairs (set_sub c subs) = map (fun s => (c_ref c, c_ref s)) subs ++ flat_map pairs subs.
+Proof. destruct c; reflexivity. Qed.
+
+Section BuildPairs.
+  Variables (cd : string -> comp) (ch : string -> list string) (Q : string -> Prop).
+  Hypothesis Hcd : forall x, Q x -> c_ref (cd x) = x /\ c_sub (cd x) = [].
+  Hypothesis Hch : forall x y, In y (ch x) -> Q y.
+
+  Lemma pairs_cd x : Q x -> pairs (cd x) = [].
+  Proof.
+    intros Hx. destruct (Hcd x Hx) as [_ H2]. destruct (cd x) as [r t n v d cp l h xr p cpe s sub].
+    cbn [c_sub] in H2. subst. reflexivity.
+  Qed.
+
+  Lemma build_ref_pairs : forall fuel placed i, Q i ->
+    c_ref (fst (build fuel cd ch placed i)) = i /\
+    forall p x, In (p, x) (pairs (fst (build fuel cd ch placed i))) -> In x (ch p).
+  Proof.
+    induction fuel as [|f IH]; intros placed i Hi.
+    - cbn [build fst]. split; [exact (proj1 (Hcd i Hi))|]. rewrite (pairs_cd i Hi). intros p x [].
+    - cbn [build].
+      set (good := fun s : comp => In (c_ref s) (ch i) /\ forall p x, In (p, x) (pairs s) -> In x (ch p)).
+      assert (Hfold : forall cs st, incl cs (ch i) -> Forall good (fst st) ->
+                Forall good (fst (fold_left (build_step (build f cd ch)) cs st))).
+      { induction cs as [|c r IHc]; intros st Hcs Hst; cbn [fold_left]; [exact Hst|].
+        apply IHc; [intros y Hy; apply Hcs; right; exact Hy|].
+        destruct st as [acc pl]. unfold build_step. destruct (mem c pl); [exact Hst|].
+        assert (Hc : In c (ch i)) by (apply Hcs; left; reflexivity).
+        destruct (IH pl c (Hch i c Hc)) as [H1 H2].
+        destruct (build f cd ch pl c) as [sc pl']. cbn [fst] in *.
+        apply Forall_app. split; [exact Hst|]. constructor; [|constructor].
+        split; [rewrite H1; exact Hc|exact H2]. }
+      specialize (Hfold (ch i) ([], i :: placed) (incl_refl _) (Forall_nil _)).
+      destruct (fold_left (build_step (build f cd ch)) (ch i) ([], i :: placed)) as [subs placed'].
+      cbn [fst] in *. destruct (Hcd i Hi) as [Hr Hs].
+      destruct subs as [|s1 sr].
+      + split; [exact Hr|]. rewrite (pairs_cd i Hi). intros p x [].
+      + assert (Href : c_ref (set_sub (cd i) (s1 :: sr)) = i) by (destruct (cd i); exact Hr).
+        split; [exact Href|]. rewrite pairs_set_sub, Hr. intros p x Hpx.
+        rewrite Forall_forall in Hfold.
+        apply in_app_or in Hpx as [Hpx|Hpx].
+        * apply in_map_iff in Hpx as [s [E Hs']]. injection E as <- <-. exact (proj1 (Hfold s Hs')).
+        * apply in_flat_map in Hpx as [s [Hs' Hpx]]. exact (proj2 (Hfold s Hs') p x Hpx).
+  Qed.
+End BuildPairs.
+
+Lemma children_of_In par p x : In x (children_of par p) <-> In (x, p) par.
+Proof.
+  unfold children_of. rewrite in_map_iff. split.
+  - intros [[x' p'] [<- H]]. apply filter_In in H as [H E]. cbn [snd fst] in *. apply String.eqb_eq in E. subst. exact H.
+  - intros H. exists (x, p). split; [reflexivity|]. apply filter_In. split; [exact H|]. cbn [snd]. apply String.eqb_refl.
+Qed.
+
+Theorem assemble_pairs_sound fuel order root cd par :
+  (forall x, In x order -> c_ref (cd x) = x /\ c_sub (cd x) = []) ->
+  (forall x p, In (x, p) par -> In x order) ->
+  forall p x, In (p, x) (flat_map pairs (assemble_with fuel order root cd par)) -> In (x, p) par.
+Proof.
+  intros Hcd Hpar. unfold assemble_with.
+  set (good := fun s : comp => forall p x, In (p, x) (pairs s) -> In (x, p) par).
+  assert (Hstep : forall b st i, In i order -> Forall good (fst st) -> Forall good (fst (top_step fuel root cd par b st i))).
+  { intros b [acc pl] i Hi Hst. unfold top_step.
+    destruct (String.eqb i root || mem i pl)%bool; [exact Hst|].
+    destruct (b && _)%bool; [exact Hst|].
+    pose proof (build_ref_pairs cd (children_of par) (fun x => In x order) Hcd
+                  (fun x y Hy => Hpar y x (proj1 (children_of_In par x y) Hy)) fuel pl i Hi) as [_ H2].
+    destruct (build fuel cd (children_of par) pl i) as [c pl']. cbn [fst] in *.
+    apply Forall_app. split; [exact Hst|]. constructor; [|constructor].
+    intros p x Hpx. apply children_of_In. exact (H2 p x Hpx). }
+  assert (Hfold : forall b l st, incl l order -> Forall good (fst st) -> Forall good (fst (fold_left (top_step fuel root cd par b) l st))).
+  { intros b. induction l as [|i r IH]; intros st Hl Hst; cbn [fold_left]; [exact Hst|].
+    apply IH; [intros y Hy; apply Hl; right; exact Hy|]. apply Hstep; [apply Hl; left; reflexivity|exact Hst]. }
+  pose proof (Hfold false order _ (incl_refl _) (Hfold true order ([], []) (incl_refl _) (Forall_nil _))) as H.
+  rewrite Forall_forall in H. intros p x Hpx. apply in_flat_map in Hpx as [s [Hs Hpx]]. exact (H s Hs p x Hpx).
+Qed.
+
+(* in a successful serialization every nesting is a contains edge of the document *)
+Theorem forest_pairs_are_contains_edges nl root p x : contains_closed nl ->
+  In (p, x) (flat_map pairs (cdx_forest nl root)) ->
+  x <> root /\ x <> p /\ exists e, In e (nl_edges nl) /\ e_type e = Edge_Type_contains /\ e_from e = p /\ In x (e_to e).
+Proof.
+  intros Hc H. unfold cdx_forest, assemble in H.
+  destruct (parents_inv root (nl_edges nl)) as [Hf _]. rewrite Forall_forall in Hf.
+  apply assemble_pairs_sound in H.
+  - exact (Hf _ H).
+  - intros y Hy. apply last_comp_ref. exact (proj1 (dedup_In y _) Hy).
+  - intros y q Hyq. destruct (Hf _ Hyq) as [_ [_ [e [He [Ht [_ Hx]]]]]]. cbn [fst] in Hx. apply dedup_In. exact (Hc e He Ht y Hx).
+Qed.
+
+(* ---- dependencies: complete, and closed over the document's nodes --------------------------------- *)
+Theorem cdx_deps_closed d b f tos : cdx_ser d = Ok b -> In (f, tos) (b_deps b) ->
+  exists nl, d_node_list d = Some nl /\ In f (ids nl) /\ forall x, In x tos -> In x (ids nl).
+Proof.
+  intros H Hin. destruct (cdx_ser_shape d b H) as [md [nl [_ [Enl [[_ [_ [_ Ed]]]|[root [rn [_ [_ [Hfrom [Hto [_ [Ed _]]]]]]]]]]]]].
+  - rewrite Ed in Hin. destruct Hin.
+  - exists nl. split; [exact Enl|]. rewrite Ed in Hin. apply in_flat_map in Hin as [e [He Hin]].
+    destruct (Z.eqb (e_type e) Edge_Type_dependsOn) eqn:Et; [|destruct Hin].
+    destruct Hin as [E|[]]. injection E as <- <-. apply Z.eqb_eq in Et.
+    split; [exact (Hfrom e He)|]. intros x Hx. apply (Hto e He (or_intror Et)). exact (proj1 (dedup_In x _) Hx).
+Qed.
+
+Theorem cdx_deps_complete d b nl e x : cdx_ser d = Ok b -> d_node_list d = Some nl ->
+  In e (nl_edges nl) -> In (e_from e) (ids nl) -> e_type e = Edge_Type_dependsOn -> In x (e_to e) ->
+  exists tos, In (e_from e, tos) (b_deps b) /\ In x tos.
+Proof.
+  intros H Enl He Hsrc Ht Hx.
+  destruct (cdx_ser_shape d b H) as [md [nl' [_ [Enl' [[_ [En [_ _]]]|[root [rn [_ [Efn [_ [_ [_ [Ed _]]]]]]]]]]]]];
+    rewrite Enl in Enl'; injection Enl' as <-.
+  - exfalso. unfold ids in Hsrc. rewrite En in Hsrc. destruct Hsrc.
+  - exists (dedup (e_to e)). split; [|apply dedup_In; exact Hx]. rewrite Ed. apply in_flat_map. exists e. split; [exact He|].
+    rewrite Ht, Z.eqb_refl. left. reflexivity.
+Qed.
+
+(* ---- totality: exactly when the CycloneDX serializer succeeds (C07) -------------------------------- *)
+Lemma all_ok_Ok {A B} (f : A -> result B) l : (forall x, In x l -> exists y, f x = Ok y) <-> exists ys, all_ok f l = Ok ys.
+Proof.
+  induction l as [|x r IH]; cbn [all_ok].
+  - split; [intros _; exists []; reflexivity|intros _ y []].
+  - split.
+    + intros H. destruct (H x (or_introl eq_refl)) as [y Ey]. rewrite Ey.
+      destruct (proj1 IH (fun z Hz => H z (or_intror Hz))) as [ys Eys]. rewrite Eys. exists (y :: ys). reflexivity.
+    + intros [ys E] z [<-|Hz].
+      * destruct (f x) as [y| | |]; try discriminate. exists y. reflexivity.
+      * apply (proj2 IH); [|exact Hz]. destruct (f x); try discriminate. destruct (all_ok f r) as [ys'| | |]; try discriminate.
+        exists ys'. reflexivity.
+Qed.
+
+Lemma cdx_ser_not_panic d : cdx_ser d <> Panic /\ cdx_ser d <> Fatal.
+Proof.
+  unfold cdx_ser. destruct (d_metadata d); [|split; discriminate]. destruct (d_node_list d) as [nl|]; [|split; discriminate].
+  destruct (nl_root_elements nl) as [|r [|r2 rr]]; [destruct (nl_nodes nl); split; discriminate| |split; discriminate].
+  destruct (first_node r (nl_nodes nl)); [|split; discriminate].
+  destruct (all_ok phase_of _); try (split; discriminate).
+  destruct (negb _); [split; discriminate|]. destruct (negb _); split; discriminate.
+Qed.
+
+Definition cdx_serializable (d : document) : Prop :=
+  exists md nl, d_metadata d = Some md /\ d_node_list d = Some nl /\
+  ((nl_root_elements nl = [] /\ nl_nodes nl = []) \/
+   (exists root, nl_root_elements nl = [root] /\ In root (ids nl) /\
+      (forall dt, In dt (md_documentTypes md) -> exists ph, phase_of dt = Ok ph) /\
+      (forall e, In e (nl_edges nl) -> In (e_from e) (ids nl)) /\
+      (forall e, In e (nl_edges nl) -> e_type e = Edge_Type_contains \/ e_type e = Edge_Type_dependsOn ->
+                 forall x, In x (e_to e) -> In x (ids nl)))).
+
+Theorem cdx_ser_ok_iff d : (exists b, cdx_ser d = Ok b) <-> cdx_serializable d.
+Proof.
+  split.
+  - intros [b H]. pose proof H as H'. unfold cdx_ser in H'.
+    destruct (cdx_ser_shape d b H) as [md [nl [Em [En [[Er [Enn _]]|[root [rn [Er [Ef [Hfrom [Hto _]]]]]]]]]]].
+    + exists md, nl. split; [exact Em|]. split; [exact En|]. left. split; assumption.
+    + exists md, nl. split; [exact Em|]. split; [exact En|]. right. exists root. split; [exact Er|].
+      split; [destruct (first_node_Some _ _ _ Ef) as [Hin <-]; apply in_map; exact Hin|].
+      split; [|split; assumption].
+      rewrite Em, En, Er, Ef in H'. apply all_ok_Ok.
+      destruct (all_ok phase_of (md_documentTypes md)) as [lcs| | |]; try discriminate. exists lcs. reflexivity.
+  - intros [md [nl [Em [En [[Er Enn]|[root [Er [Hroot [Hdt [Hfrom Hto]]]]]]]]]]; unfold cdx_ser; rewrite Em, En, Er.
+    + rewrite Enn. eexists. reflexivity.
+    + destruct (first_node_In root (nl_nodes nl) Hroot) as [rn [Ef _]]. rewrite Ef.
+      destruct (proj1 (all_ok_Ok phase_of (md_documentTypes md)) Hdt) as [lcs El]. rewrite El.
+      assert (E1 : forallb (fun e => mem (e_from e) (ids nl)) (nl_edges nl) = true).
+      { apply forallb_forall. intros e He. apply mem_In. exact (Hfrom e He). }
+      rewrite E1. cbn [negb].
+      assert (E2 : forallb (fun e => (negb (Z.eqb (e_type e) Edge_Type_contains || Z.eqb (e_type e) Edge_Type_dependsOn)
+                                     || forallb (fun i => mem i (ids nl)) (e_to e))%bool) (nl_edges nl) = true).
+      { apply forallb_forall. intros e He.
+        destruct (Z.eqb (e_type e) Edge_Type_contains) eqn:A; [|destruct (Z.eqb (e_type e) Edge_Type_dependsOn) eqn:B; [|reflexivity]].
+        - cbn [orb negb]. apply forallb_forall. intros x Hx. apply mem_In. apply Z.eqb_eq in A. exact (Hto e He (or_introl A) x Hx).
+        - cbn [orb negb]. apply forallb_forall. intros x Hx. apply mem_In. apply Z.eqb_eq in B. exact (Hto e He (or_intror B) x Hx). }
+      rewrite E2. cbn [negb]. eexists. reflexivity.
+Qed.
+
+(* the assembly the serializer runs is the fuel-free one: more fuel changes nothing *)
+Theorem forest_fuel_irrelevant nl root k : contains_closed nl ->
+  assemble_with (S (length (dedup (ids nl))) + k) (dedup (ids nl)) root (last_comp (nl_nodes nl)) (parents root (nl_edges nl))
+  = cdx_forest nl root.
+Proof.
+  intros Hc. unfold cdx_forest, first_occurrences. apply assemble_fuel_enough.
+  intros x p Hxp. destruct (parents_inv root (nl_edges nl)) as [Hf _]. rewrite Forall_forall in Hf.
+  destruct (Hf _ Hxp) as [_ [_ [e [He [Ht [_ Hx]]]]]]. cbn [fst] in Hx. apply dedup_In. exact (Hc e He Ht x Hx).
+Qed.
+
+(* ---- the parser's output is no larger than its input (C04) ---------------------------------------- *)
+Fixpoint csize (c : comp) : nat := S (list_sum (map csize (c_sub c))).
+
+Lemma relate_list_nodes_len l l2 a t l' : relate_list_at l l2 a t = Ok l' ->
+  (length (nl_nodes l') <= length (nl_nodes l) + length (nl_nodes l2))%nat.
+Proof.
+  unfold relate_list_at. destruct (negb (has l a)); [discriminate|]. intros H. injection H as <-. cbn [nl_nodes].
+  rewrite app_length. pose proof (filter_len (fun n => negb (mem (n_id n) (ids l))) (nl_nodes l2)) as Hl. lia.
+Qed.
+
+Lemma comp_to_nl_size : forall c cc, (length (nl_nodes (fst (comp_to_nl c cc))) <= csize c)%nat.
+Proof.
+  induction c as [c IH] using comp_ind'. intros cc.
+  destruct c as [r t n v d cp l h x p cpe s sub]. cbn [comp_to_nl c_sub csize]. cbn [c_sub] in IH.
+  set (nd := comp_to_node _ (cc + 1)).
+  set (nl0 := {| nl_nodes := [nd]; nl_edges := []; nl_root_elements := [n_id nd] |}).
+  assert (H0 : (length (nl_nodes nl0) <= 1)%nat) by (cbn; lia).
+  change (S (list_sum (map csize sub))) with (1 + list_sum (map csize sub))%nat.
+  clearbody nd. revert H0. generalize 1%nat as base. generalize (cc + 1) as k. generalize nl0 as nl. clear nl0.
+  induction sub as [|s1 rest IHs]; intros nl k base H0; cbn [fold_left fst map list_sum].
+  - lia.
+  - inversion IH as [|? ? Hs1 Hrest]; subst.
+    destruct (comp_to_nl s1 k) as [snl k'] eqn:E.
+    specialize (IHs Hrest (or_keep nl (relate_list_at nl snl (n_id nd) Edge_Type_contains)) k' (base + csize s1)%nat).
+    assert (Hle : (length (nl_nodes (or_keep nl (relate_list_at nl snl (n_id nd) Edge_Type_contains))) <= base + csize s1)%nat).
+    { specialize (Hs1 k). rewrite E in Hs1. cbn [fst] in Hs1.
+      destruct (relate_list_at nl snl (n_id nd) Edge_Type_contains) as [l'| | |] eqn:El; cbn [or_keep]; try lia.
+      pose proof (relate_list_nodes_len _ _ _ _ _ El). lia. }
+    change (list_sum (csize s1 :: map csize rest)) with (csize s1 + list_sum (map csize rest))%nat.
+    rewrite Nat.add_assoc. exact (IHs Hle).
+Qed.
+
+Definition bsize (b : cbom) : nat :=
+  (match (if b_has_metadata b then b_meta_comp b else None) with Some mc => csize mc | None => 0 end
+   + list_sum (map csize (b_components b)))%nat.
+
+Lemma add_nodes_len l l2 : (length (nl_nodes (add l l2)) <= length (nl_nodes l) + length (nl_nodes l2))%nat.
+Proof.
+  rewrite <- !(map_length n_id). change (map n_id (nl_nodes (add l l2))) with (ids (add l l2)).
+  unfold add, ids at 1; cbn [nl_nodes]. fold (ids l). rewrite merge_nodes_ids by (intros a b; apply augment_id).
+  rewrite app_length.
+  pose proof (filter_len (fun i => negb (mem i (ids l))) (map n_id (nl_nodes l2))) as Hl. unfold ids in *. lia.
+Qed.
+
+(* no more nodes than components: the conversion does not blow its input up *)
+Theorem cdx_unser_size b : (length (nl_nodes (cdx_unser_nl b)) <= bsize b)%nat.
+Proof.
+  unfold cdx_unser_nl, bsize.
+  set (st0 := match (if b_has_metadata b then b_meta_comp b else None) with
+              | Some mc => let '(nl, k) := comp_to_nl mc 0 in (add empty_nl nl, k)
+              | None => (empty_nl, 0)
+              end).
+  set (base := match (if b_has_metadata b then b_meta_comp b else None) with Some mc => csize mc | None => 0%nat end).
+  assert (H0 : (length (nl_nodes (fst st0)) <= base)%nat).
+  { unfold st0, base. destruct (if b_has_metadata b then b_meta_comp b else None) as [mc|]; [|cbn; lia].
+    pose proof (comp_to_nl_size mc 0) as H. destruct (comp_to_nl mc 0) as [nl k]. cbn [fst] in *.
+    pose proof (add_nodes_len empty_nl nl). cbn [empty_nl nl_nodes length] in *. lia. }
+  clearbody st0 base. revert st0 base H0. generalize (b_components b) as cs.
+  induction cs as [|c rest IH]; intros st base H0; cbn [fold_left map].
+  - cbn. lia.
+  - change (list_sum (csize c :: map csize rest)) with (csize c + list_sum (map csize rest))%nat.
+    rewrite Nat.add_assoc. apply IH. destruct st as [doc k]. cbn [fst] in H0.
+    pose proof (comp_to_nl_size c k) as H. destruct (comp_to_nl c k) as [nl k']. cbn [fst] in *.
+    destruct (nl_root_elements doc) as [|r rr].
+    + pose proof (add_nodes_len doc nl). lia.
+    + destruct (relate_list_at doc nl r Edge_Type_contains) as [l'| | |] eqn:El; cbn [or_keep]; try lia.
+      pose proof (relate_list_nodes_len _ _ _ _ _ El). lia.
+Qed.
+
+(* ---- per node: the attributes CycloneDX expresses (C02) -------------------------------------------- *)
+Definition cdx_native_purposes : list Z :=
+  [Purpose_APPLICATION; Purpose_CONTAINER; Purpose_DATA; Purpose_DEVICE; Purpose_DEVICE_DRIVER; Purpose_FIRMWARE;
+   Purpose_FRAMEWORK; Purpose_LIBRARY; Purpose_MACHINE_LEARNING_MODEL; Purpose_OPERATING_SYSTEM; Purpose_PLATFORM].
+
+Definition purpose_rt (p : Z) : Z :=
+  slook cdx_type_to_purpose_tab 0 (match zassoc p purpose_to_cdx_tab with Some t => t | None => "" end).
+
+Lemma native_purposes_rt : forallb (fun p => (Z.eqb (purpose_rt p) p && negb (Z.eqb p Purpose_FILE))%bool) cdx_native_purposes = true.
+Proof. vm_compute. reflexivity. Qed.
+
+Lemma file_type_rt : slook cdx_type_to_purpose_tab 0 "file" = Purpose_FILE.
+Proof. vm_compute. reflexivity. Qed.
+
+Theorem cdx_scalar_attributes n cc : let n' := comp_to_node (node_to_comp n) cc in
+  (n_id n <> "" -> n_id n' = n_id n) /\ n_name n' = n_name n /\ n_version n' = n_version n /\
+  n_description n' = n_description n /\ n_copyright n' = n_copyright n.
+Proof.
+  cbn zeta. unfold comp_to_node, node_to_comp; cbn [n_id n_name n_version n_description n_copyright c_ref c_name c_version c_description c_copyright].
+  split; [|repeat split]. intros H. apply String.eqb_neq in H. rewrite H. reflexivity.
+Qed.
+
+Theorem cdx_kind_and_type n cc : let n' := comp_to_node (node_to_comp n) cc in
+  (n_type n = Node_NodeType_FILE -> n_type n' = Node_NodeType_FILE /\ n_primary_purpose n' = [Purpose_FILE]) /\
+  (forall p r, n_type n = Node_NodeType_PACKAGE -> n_primary_purpose n = p :: r -> In p cdx_native_purposes ->
+     n_type n' = Node_NodeType_PACKAGE /\ n_primary_purpose n' = [p]).
+Proof.
+  cbn zeta. unfold comp_to_node, node_to_comp; cbn [n_type n_primary_purpose c_type]. split.
+  - intros E. rewrite E. vm_compute. split; reflexivity.
+  - intros p r Ht Hp Hin. rewrite Ht, Hp. change (Node_NodeType_PACKAGE =? Node_NodeType_FILE) with false. cbn iota.
+    pose proof native_purposes_rt as H. rewrite forallb_forall in H. specialize (H p Hin).
+    apply andb_true_iff in H as [H1 H2]. apply Z.eqb_eq in H1. unfold purpose_rt in H1. rewrite H1.
+    apply negb_true_iff in H2. rewrite H2. split; reflexivity.
+Qed.
+
+(* the licence list is NOT preserved beyond its first entry: K13 *)
+Theorem cdx_licence_list_refuted : exists n cc,
+  n_licenses (comp_to_node (node_to_comp n) cc) <> n_licenses n /\ length (n_licenses n) = 2%nat.
+Proof.
+  exists {| n_id := "n"; n_type := 0; n_name := "n"; n_version := ""; n_file_name := ""; n_url_home := "";
+            n_url_download := ""; n_licenses := ["MIT"; "Apache-2.0"]; n_license_concluded := ""; n_license_comments := "";
+            n_copyright := ""; n_source_info := ""; n_comment := ""; n_summary := ""; n_description := "";
+            n_attribution := []; n_suppliers := []; n_originators := []; n_release_date := None;
+            n_build_date := None; n_valid_until_date := None; n_external_references := [];
+            n_file_types := []; n_identifiers := []; n_hashes := []; n_primary_purpose := [] |}, 1.
+  split; [vm_compute; discriminate|reflexivity].
+Qed.
+
+Theorem cdx_single_licence n cc l : n_licenses n = [l] -> l <> "" -> n_licenses (comp_to_node (node_to_comp n) cc) = [l].
+Proof.
+  intros E Hl. unfold comp_to_node, node_to_comp; cbn [n_licenses c_licenses]. rewrite E. cbn [map lic_list filter cl_expression cl_has_license cl_id].
+  apply String.eqb_neq in Hl. unfold lic_list. cbn [filter cl_expression cl_has_license cl_id]. rewrite Hl. cbn. reflexivity.
+Qed.
+
+Theorem cdx_no_licence n cc : n_licenses n = [] -> n_licenses (comp_to_node (node_to_comp n) cc) = [].
+Proof. intros E. unfold comp_to_node, node_to_comp; cbn [n_licenses c_licenses]. rewrite E. reflexivity. Qed.
+
+(* serial number and lifecycle phases of the document *)
+Theorem cdx_serial_and_lifecycles d b md : cdx_ser d = Ok b -> d_metadata d = Some md ->
+  b_serial b = md_id md /\
+  ((exists nl, d_node_list d = Some nl /\ nl_nodes nl = [] /\ nl_root_elements nl = []) \/ all_ok phase_of (md_documentTypes md) = Ok (b_lifecycles b)).
+Proof.
+  unfold cdx_ser. intros H Em. rewrite Em in H. destruct (d_node_list d) as [nl|]; [|discriminate].
+  destruct (nl_root_elements nl) as [|root [|r2 rr]] eqn:Er; [| |discriminate].
+  - destruct (nl_nodes nl) eqn:En; [|discriminate]. injection H as <-. split; [reflexivity|]. left. exists nl. repeat split; assumption.
+  - destruct (first_node root (nl_nodes nl)); [|discriminate].
+    destruct (all_ok phase_of (md_documentTypes md)) as [lcs| | |]; try discriminate.
+    destruct (negb _); [discriminate|]. destruct (negb _); [discriminate|]. injection H as <-. split; [reflexivity|]. right. reflexivity.
+Qed.
+
+Lemma phase_type_rt : forallb (fun t => match phase_of {| dt_type := Some t; dt_name := None; dt_description := None |} with
+                                        | Ok (ph, _, _) => match sassoc ph phase_to_sbomtype_tab with Some t' => Z.eqb t' t | None => false end
+                                        | _ => false
+                                        end)
+    [DocumentType_SBOMType_BUILD; DocumentType_SBOMType_DESIGN; DocumentType_SBOMType_ANALYZED; DocumentType_SBOMType_SOURCE;
+     DocumentType_SBOMType_DECOMISSION; DocumentType_SBOMType_DEPLOYED; DocumentType_SBOMType_DISCOVERY] = true.
+Proof. vm_compute. reflexivity. Qed.
